@@ -71,6 +71,8 @@ def explore_config(case):
                        case, "config", ("Ad", "ad", "bracket"))
     numapi.check_forms(res, B, [e["p"] for e in alpha.reduced(elems, 16 if not is_dp else 8)], [x["p"] for x in alpha.reduced(xs, 16 if not is_dp else 8)],
                        case, "config", ("Ad", "ad", "bracket"))
+    numapi.check_composed(res, B, [e["p"] for e in alpha.reduced(elems, 12 if not is_dp else 8)], [x["p"] for x in alpha.reduced(xs, 12 if not is_dp else 8)],
+                          case, "config", firsts=["exp", "inverse", "square", "neg", "log"], seconds=["Ad", "ad"])
     # ---------------- shapes ---------------------------------------------------------------------
     if ok_("Ad"):
         A0 = B.call("Ad", elems[0]["p"])
